@@ -100,6 +100,9 @@ pub enum Verdict {
     SoloBound(usize, u64),
     /// a solo-run call blocked on something held by a frozen thread
     SoloBlocked(usize),
+    /// a try operation executed more than the given number of its own scheduling points in a row
+    /// while no other thread changed anything, and had not returned
+    TryOpSpins(usize, u64),
 }
 
 #[derive(Clone, Debug, serde::Serialize, serde::Deserialize, PartialEq, Eq)]
@@ -154,6 +157,9 @@ pub struct ExecCfg {
     /// inject a spurious failure into every k-th weak CAS decision whose schedule byte asks for it
     pub weak_cas_fail: bool,
     pub quarantine: bool,
+    /// > 0: bound on the scheduling points a try operation may execute in a row without any
+    /// other thread changing shared state in between (C18 for every try call of an execution)
+    pub try_quiet_bound: u64,
 }
 
 impl Default for ExecCfg {
@@ -165,6 +171,7 @@ impl Default for ExecCfg {
             spin_yield: 40,
             weak_cas_fail: false,
             quarantine: false,
+            try_quiet_bound: 0,
         }
     }
 }
@@ -201,6 +208,8 @@ pub struct Outcome {
     pub threads: Vec<ThreadInfo>,
     pub faults: Vec<String>,
     pub max_solo: u64,
+    /// longest run of points of one try operation without a change by another thread
+    pub max_try_quiet: u64,
     pub frees: u64,
     pub allocs: u64,
     pub weak_fail_injected: u64,
@@ -218,6 +227,12 @@ struct Th {
     steps: u64,
     in_call: bool,
     activity: Act,
+    /// value-changing writes made by this thread
+    own_changes: u64,
+    /// changes by others seen at this thread's previous point of the current call
+    call_seen_foreign: u64,
+    /// consecutive points of the current call without a change by anybody else
+    call_quiet: u64,
 }
 
 struct Solo {
@@ -236,6 +251,7 @@ struct State {
     current: usize,
     step: u64,
     last_change: u64,
+    changes_total: u64,
     cfg: ExecCfg,
     byte_pos: usize,
     decisions: u64,
@@ -248,6 +264,7 @@ struct State {
     pending_addr: usize,
     solo: Option<Solo>,
     max_solo: u64,
+    max_try_quiet: u64,
     pct_prio: [i32; MAX_THREADS],
     pct_low: i32,
     // quarantine
@@ -324,6 +341,7 @@ impl State {
             current: 0,
             step: 0,
             last_change: 0,
+            changes_total: 0,
             cfg: ExecCfg::default(),
             byte_pos: 0,
             decisions: 0,
@@ -336,6 +354,7 @@ impl State {
             pending_addr: 0,
             solo: None,
             max_solo: 0,
+            max_try_quiet: 0,
             pct_prio: [0; MAX_THREADS],
             pct_low: 0,
             live_allocs: BTreeMap::new(),
@@ -399,6 +418,7 @@ impl State {
 
     fn mark_change(&mut self) {
         self.last_change = self.step;
+        self.changes_total += 1;
         for t in self.threads.iter_mut() {
             t.yielded = false;
         }
@@ -770,6 +790,28 @@ impl Sched {
                 return st;
             }
         }
+        if st.cfg.try_quiet_bound > 0 {
+            // TrySend, TryRecv, TryView, TryIterNext (CallKind codes)
+            let k = st.threads[me].activity.kind;
+            if k == 1 || k == 7 || k == 9 || k == 11 {
+                let foreign = st.changes_total - st.threads[me].own_changes;
+                let th = &mut st.threads[me];
+                if foreign != th.call_seen_foreign {
+                    th.call_seen_foreign = foreign;
+                    th.call_quiet = 0;
+                } else {
+                    th.call_quiet += 1;
+                    let cq = th.call_quiet;
+                    if cq > st.max_try_quiet {
+                        st.max_try_quiet = cq;
+                    }
+                    if cq > st.cfg.try_quiet_bound {
+                        let b = st.cfg.try_quiet_bound;
+                        self.abort_here(st, Verdict::TryOpSpins(me, b));
+                    }
+                }
+            }
+        }
         st.pending_addr = if addr == ADDR_PAYLOAD { TARGET_PAYLOAD as usize } else { st.addr_index(addr) };
         if trace_on() {
             eprintln!("  [{:>5}] t{} addr#{} act={:?}", st.step, me, st.pending_addr, st.threads[me].activity.kind);
@@ -851,6 +893,9 @@ impl Sched {
                     steps: 0,
                     in_call: false,
                     activity: Act::default(),
+                    own_changes: 0,
+                    call_seen_foreign: 0,
+                    call_quiet: 0,
                 });
             }
             st.threads[0].state = TState::Runnable;
@@ -879,6 +924,7 @@ impl Sched {
             threads,
             faults: std::mem::take(&mut st.faults),
             max_solo: st.max_solo,
+            max_try_quiet: st.max_try_quiet,
             frees: st.frees,
             allocs: st.allocs,
             weak_fail_injected: st.weak_fail_injected,
@@ -987,6 +1033,8 @@ impl Sched {
             if st.active {
                 st.threads[me].activity = a;
                 st.threads[me].in_call = a.kind != 0 && a.kind < 100;
+                st.threads[me].call_quiet = 0;
+                st.threads[me].call_seen_foreign = st.changes_total - st.threads[me].own_changes;
             }
         }
     }
@@ -1168,6 +1216,7 @@ impl Runtime for Sched {
             let mut st = self.lock();
             if st.active && st.abort.is_none() {
                 st.threads[me].ro_streak = 0;
+                st.threads[me].own_changes += 1;
                 st.mark_change();
             }
         }
